@@ -493,15 +493,42 @@ Proof. intros H X. cbn [fst] in X. congruence. Qed.
 Lemma noarg_nonlocal o : has_operand o = false -> is_local o = false.
 Proof. destruct o; try reflexivity; discriminate. Qed.
 
-Theorem efrag_sl2 : forall e, efrag e = true -> expr_sl2 e.
+Fixpoint elen (l : elist) : N := match l with ENil => 0 | ECons _ t => 1 + elen t end.
+Lemma elen_len l : elist_len l = Z.of_N (elen l).
+Proof. induction l as [|e t IH]; cbn [elist_len elen]; lia. Qed.
+
+Definition elist_sl2 (l : elist) : Prop :=
+  forall st st', compile_elist true l st = COk st' ->
+    csym st' = csym st /\
+    exists ops newc,
+      ccode st' = ccode st ++ encode ops /\ cconsts st' = cconsts st ++ newc /\
+      (forall nc gc k,
+        N.of_nat (List.length (cconsts st')) <= nc ->
+        gbw (csym st) gc ->
+        runs nc gc ops k = Some (k + elen l)) /\
+      (forall lc, lbw (csym st) lc -> Forall (lopk lc) ops).
+
+Lemma sop_ok_array nc gc n k : n < 65536 -> sop_ok nc gc (Array, n) (k + n) = Some (k + 1).
 Proof.
-  induction e; intro HF; try discriminate HF; unfold expr_sl2; intros st st' HC.
-  - (* ENum *) simpl in HC. destruct (const_sl _ _ _ HC) as (R0 & A & B & C).
+  intro H. unfold sop_ok. cbn [is_sl negb has_operand andb simple_effect].
+  destruct (n <? 65536) eqn:E; [|apply N.ltb_ge in E; lia]. cbn [negb].
+  destruct (k + n <? n) eqn:E0; [apply N.ltb_lt in E0; lia|]. f_equal. lia.
+Qed.
+
+Theorem efrag_sl2_all :
+  (forall e, efrag e = true -> expr_sl2 e) /\
+  (forall l, efrag_list l = true -> elist_sl2 l) /\
+  (forall p : eplist, True) /\ (forall o : oexpr, True).
+Proof.
+  apply expr_mutind; try (intros; exact I).
+  - (* ENum *) intros f HF; unfold expr_sl2; intros st st' HC.
+    simpl in HC. destruct (const_sl _ _ _ HC) as (R0 & A & B & C).
     split; [exact A|]. eexists _, _. split; [exact B|]. split; [exact C|]. split.
     + intros nc gc k H1 _. rewrite C, app_length in H1. simpl in H1. cbn [runs].
       rewrite sop_ok_const by lia. reflexivity.
     + intros lc _. constructor; [apply lopk_nonlocal; reflexivity|constructor].
-  - (* EBool *) simpl in HC.
+  - (* EBool *) intros b HF; unfold expr_sl2; intros st st' HC.
+    simpl in HC.
     assert (HO : has_operand (if b then OTrue else OFalse) = false) by (destruct b; reflexivity).
     pose proof (emit_enc0 _ _ _ HO HC) as ->. cbn [csym ccode cconsts].
     split; [reflexivity|]. exists [(if b then OTrue else OFalse, 0)], []. split; [rewrite encode_one; reflexivity|].
@@ -509,12 +536,14 @@ Proof.
     + intros nc gc k _ _. cbn [runs].
       rewrite (sop_ok_noarg nc gc _ 0 k HO) by (destruct b; try reflexivity; lia). f_equal. lia.
     + intros lc _. constructor; [apply lopk_nonlocal, noarg_nonlocal; exact HO|constructor].
-  - (* EStr *) simpl in HC. destruct (const_sl _ _ _ HC) as (R0 & A & B & C).
+  - (* EStr *) intros s HF; unfold expr_sl2; intros st st' HC.
+    simpl in HC. destruct (const_sl _ _ _ HC) as (R0 & A & B & C).
     split; [exact A|]. eexists _, _. split; [exact B|]. split; [exact C|]. split.
     + intros nc gc k H1 _. rewrite C, app_length in H1. simpl in H1. cbn [runs].
       rewrite sop_ok_const by lia. reflexivity.
     + intros lc _. constructor; [apply lopk_nonlocal; reflexivity|constructor].
-  - (* EVar *) simpl in HC. unfold compile_var in HC.
+  - (* EVar *) intros n HF; unfold expr_sl2; intros st st' HC.
+    simpl in HC. unfold compile_var in HC.
     destruct (st_resolve n (csym st)) as [y|] eqn:ER; [|discriminate].
     destruct (sscp y) eqn:ES.
     + apply emit_enc1 in HC; [|reflexivity]. destruct HC as [HRng ->]. cbn [csym ccode cconsts].
@@ -528,7 +557,19 @@ Proof.
       split; [rewrite encode_one; reflexivity|]. split; [rewrite app_nil_r; reflexivity|]. split.
       * intros nc gc k _ _. cbn [runs]. rewrite sop_ok_getlocal by lia. reflexivity.
       * intros lc HL. constructor; [|constructor]. intros _. cbn [snd]. apply (HL _ _ ER ES).
-  - (* EUn *)
+  - (* EArr *) intros l IHl HF; unfold expr_sl2; intros st st' HC.
+    cbn [efrag] in HF. simpl in HC. bind_inv HC.
+    destruct (IHl HF _ _ H) as (A & ops & newc & B & C & D & L).
+    apply emit_enc1 in HC; [|reflexivity]. destruct HC as [HRng ->]. cbn [csym ccode cconsts].
+    rewrite elen_len, N2Z.id in *.
+    split; [exact A|]. exists (ops ++ [(Array, elen l)]), newc.
+    split; [rewrite encode_app, encode_one, B, app_assoc; reflexivity|]. split; [exact C|]. split.
+    + intros nc gc k H1 HG. eapply runs_app; [apply (D nc gc k); auto|]. cbn [runs].
+      rewrite sop_ok_array by lia. reflexivity.
+    + intros lc HL. apply Forall_app. split; [apply L; exact HL|]. constructor; [apply lopk_nonlocal; reflexivity|constructor].
+  - (* EMap *) intros kvs _ np HF. discriminate HF.
+  - (* EUn *) intros op e IHe HF; unfold expr_sl2; intros st st' HC.
+   
     assert (HF1 : efrag e = true) by (destruct op; simpl in HF; congruence).
     specialize (IHe HF1). simpl in HC. bind_inv HC.
     destruct (IHe _ _ H) as (A & ops & newc & B & C & D & L).
@@ -544,7 +585,8 @@ Proof.
       rewrite (sop_ok_noarg nc gc o 1 (k + 1) HO HS HE) by lia. f_equal. lia.
     + intros lc HL. apply Forall_app. split; [apply L; exact HL|].
       constructor; [apply lopk_nonlocal, noarg_nonlocal; exact HO|constructor].
-  - (* EBin *)
+  - (* EBin *) intros op lt rt e1 IHe1 e2 IHe2 HF; unfold expr_sl2; intros st st' HC.
+   
     simpl in HF. apply andb_true_iff in HF. destruct HF as [HF1 HF2].
     specialize (IHe1 HF1). specialize (IHe2 HF2). simpl in HC. bind_inv HC. bind_inv H.
     destruct (IHe1 _ _ H0) as (A1 & ops1 & newc1 & B1 & C1 & D1 & L1).
@@ -560,8 +602,47 @@ Proof.
       rewrite (sop_ok_noarg nc gc o 2 (k + 1 + 1) HO HS HE) by lia. f_equal. lia.
     + intros lc HL. apply Forall_app. split; [apply L1; exact HL|]. apply Forall_app. split; [apply L2; rewrite A1; exact HL|].
       constructor; [apply lopk_nonlocal, noarg_nonlocal; exact HO|constructor].
-  - (* EGroup *) simpl in HF, HC. apply (IHe HF _ _ HC).
+  - (* EIndex *) intros e1 IHe1 e2 IHe2 HF; unfold expr_sl2; intros st st' HC.
+   
+    simpl in HF. apply andb_true_iff in HF. destruct HF as [HF1 HF2].
+    specialize (IHe1 HF1). specialize (IHe2 HF2). simpl in HC. bind_inv HC. bind_inv H.
+    destruct (IHe1 _ _ H0) as (A1 & ops1 & newc1 & B1 & C1 & D1 & L1).
+    destruct (IHe2 _ _ H) as (A2 & ops2 & newc2 & B2 & C2 & D2 & L2).
+    assert (exists o, emit true o [] st0 = COk st' /\ has_operand o = false /\ is_sl o = true /\ simple_effect o 0 = Some (2, 1))
+      as (o & HEm & HO & HS & HE) by (exists Index; repeat split; exact HC).
+    pose proof (emit_enc0 _ _ _ HO HEm) as ->. cbn [csym ccode cconsts].
+    split; [congruence|]. exists (ops1 ++ ops2 ++ [(o, 0)]), (newc1 ++ newc2).
+    split; [rewrite !encode_app, encode_one, B2, B1, <- !app_assoc; reflexivity|].
+    split; [rewrite C2, C1, <- app_assoc; reflexivity|]. split.
+    + intros nc gc k H1 HG.
+      eapply runs_app; [apply (D1 nc gc k); auto; rewrite C2, app_length in H1; lia|].
+      eapply runs_app; [apply (D2 nc gc (k + 1)); auto; rewrite A1; exact HG|]. cbn [runs].
+      rewrite (sop_ok_noarg nc gc o 2 (k + 1 + 1) HO HS HE) by lia. f_equal. lia.
+    + intros lc HL. apply Forall_app. split; [apply L1; exact HL|]. apply Forall_app. split; [apply L2; rewrite A1; exact HL|].
+      constructor; [apply lopk_nonlocal, noarg_nonlocal; exact HO|constructor].
+  - (* ESlice *) intros l _ a _ b _ HF. discriminate HF.
+  - (* EGroup *) intros e IHe HF; unfold expr_sl2; intros st st' HC.
+    simpl in HF, HC. apply (IHe HF _ _ HC).
+  - (* EUnsupported *) intros w HF. discriminate HF.
+  - (* ENil *) intros _ st st' HC. simpl in HC. inversion HC; subst st'.
+    split; [reflexivity|]. exists [], []. split; [simpl; rewrite app_nil_r; reflexivity|]. split; [rewrite app_nil_r; reflexivity|].
+    split; [intros nc gc k _ _; cbn [runs elen]; f_equal; lia|intros; constructor].
+  - (* ECons *) intros e IHe t IHt HF st st' HC.
+    cbn [efrag_list] in HF. apply andb_true_iff in HF. destruct HF as [HF1 HF2]. simpl in HC. bind_inv HC.
+    destruct (IHe HF1 _ _ H) as (A1 & ops1 & newc1 & B1 & C1 & D1 & L1).
+    destruct (IHt HF2 _ _ HC) as (A2 & ops2 & newc2 & B2 & C2 & D2 & L2).
+    split; [congruence|]. exists (ops1 ++ ops2), (newc1 ++ newc2).
+    split; [rewrite encode_app, B2, B1, app_assoc; reflexivity|].
+    split; [rewrite C2, C1, app_assoc; reflexivity|]. split.
+    + intros nc gc k H1 HG.
+      eapply runs_app; [apply (D1 nc gc k); auto; rewrite C2, app_length in H1; lia|].
+      cbn [elen]. replace (k + (1 + elen t)) with (k + 1 + elen t) by lia.
+      apply (D2 nc gc (k + 1)); auto. rewrite A1. exact HG.
+    + intros lc HL. apply Forall_app. split; [apply L1; exact HL|apply L2; rewrite A1; exact HL].
 Qed.
+
+Theorem efrag_sl2 : forall e, efrag e = true -> expr_sl2 e.
+Proof. exact (proj1 efrag_sl2_all). Qed.
 
 Theorem efrag_sl : forall e, efrag e = true -> expr_sl e.
 Proof.
